@@ -363,10 +363,11 @@ theorem setBytes_rejects (v : Bytes) :
     rw [setBytes_Fn_spec, if_neg]
     intro hc; omega
 
-/-- the scalar wrapper's early-exit comparison gives the same verdict and value -/
+/-- the scalar wrapper gives the same verdict and value (since the repair of its early-exit
+    comparison it is the same code, compared with `ConstantTimeCmp`) -/
 theorem scalarSetBytes_eq_setBytes (v : Bytes) :
     Model.Field.scalarSetBytes Model.SM2.Fn v = Model.Field.setBytes Model.SM2.Fn v :=
-  FiatWrappers.scalarSetBytes_eq_setBytes Model.SM2.nParams Fn_params.1 Fn_params.2.1 Fn_params.2.2 v
+  FiatWrappers.scalarSetBytes_eq_setBytes Model.SM2.Fn v
 
 /-- `Bytes` is the 32-byte big-endian encoding of the represented value, which is below the modulus -/
 theorem bytes_spec (x : Nat) :
